@@ -16,7 +16,7 @@ Env(name, default) == IF name \in DOMAIN IOEnv THEN atoi(IOEnv[name]) ELSE defau
 GNodes == {"A", "R", "B"}
 GChunks == {"c1", "c2"}
 GHolder == [n \in GNodes |-> IF n = "B" THEN GChunks ELSE {}]
-GFunds == [n \in GNodes |-> IF n = "A" THEN Env("VERIF_FUNDS_A", 2) ELSE IF n = "R" THEN Env("VERIF_FUNDS_R", 1) ELSE 0]
+GFunds == [n \in GNodes |-> IF n = "A" THEN Env("VERIF_FUNDS_A", 3) ELSE IF n = "R" THEN Env("VERIF_FUNDS_R", 2) ELSE 0]
 GThr == Env("VERIF_THR", 2)
 GTol == Env("VERIF_TOL", 2)
 GMaxTop == Env("VERIF_MAXTOP", 2)
@@ -36,9 +36,16 @@ PickSteps == \E k \in CallIds : Pick(k)
 EnvSteps == \/ \E n \in Nodes, c \in Chunks, rs \in RouteLists : Start(n, c, rs)
             \/ \E n, p \in Nodes : Settle(n, p)
 
-Proto == IF ENABLED SrvSteps THEN SrvSteps
-         ELSE IF ENABLED CliSteps THEN CliSteps
-         ELSE IF ENABLED PickSteps THEN PickSteps
+\* enabledness of the protocol steps, spelled out (ENABLED is slow in TLC)
+SrvReady(a) == \/ atts[a].spc \in {"get", "write", "debit", "xfer"}
+               \/ atts[a].spc = "fwd" /\ calls[atts[a].child].pc = "done"
+CliReady(a) == \/ atts[a].cpc \in {"reserve", "open", "credit", "ciret", "put"}
+               \/ atts[a].cpc = "await" /\ (atts[a].written \/ atts[a].spc = "fail")
+               \/ atts[a].cpc \in {"ok", "fail"} /\ ~atts[a].reported /\ calls[atts[a].call].pc \in {"wait", "done"}
+
+Proto == IF \E a \in AttIds : SrvReady(a) THEN SrvSteps
+         ELSE IF \E a \in AttIds : CliReady(a) THEN CliSteps
+         ELSE IF \E k \in CallIds : calls[k].pc = "pick" THEN PickSteps
          ELSE EnvSteps
 
 \* what the step adds to the history
@@ -66,6 +73,6 @@ GSpec == GInit /\ [][GNext]_<<vars, hist, pre>>
 Last == IF hist = <<>> THEN <<>> ELSE hist[Len(hist)]
 EdgeView == <<pre, vars, Last>>
 
-Scn == [par |-> [thr |-> Thr, tol |-> Tol, funds |-> Funds], ops |-> hist]
+Scn == [par |-> [thr |-> Thr, tol |-> Tol, funds |-> Funds, big |-> (Env("VERIF_BIG", 0) = 1)], ops |-> hist]
 EmitQuiet == (Quiet /\ Len(hist) >= MinOps) => PrintT(<<"SCN", ToJson(Scn)>>)
 =============================================================================
